@@ -1,16 +1,24 @@
+from vf.driver import Cond
 from vf.props import common as C
 
 
 def plan(tier):
-    conds = []
-    conds += C.t_upd_conds("C19", tier, kinds=range(11))
+    conds = C.t_upd_conds("C19", tier, kinds=range(11))
+    conds.append(Cond("vf.h.h_misc", "h_wait", case=0, timeout=300, label="H19-wait", weight=3))
+    conds.append(Cond("vf.h.h_misc", "h_timediff", case=0, timeout=300, label="H19-timediff", weight=3))
+    conds.append(Cond("vf.h.h_misc", "h_load", case=0, timeout=300, label="H19-load", weight=3))
+    conds.append(Cond("vf.h.h_misc", "h_stats", case=0, timeout=300, label="H19-stats", weight=3))
     return {
         "conds": conds,
         "min_classes": 20,
-        "explanation": 'C19: per step, at most one move and one charge event; move event distance == odometer change; charge event energy == energy gained, price == payment received by the right station; state changes without event are refuted.',
-        "entry_points": ['step_simulation_ops.step_vehicle (VehicleState.update -> default_update -> move/charge/idle/pick_up_trip/drop_off_trip)'],
-        "bounds": C.ARENA_BOUNDS + C.T_BOUNDS,
-        "outside": C.T_OUTSIDE,
-        "stubs": C.STUBS_COMMON + C.STUBS_UPD,
-        "assumptions": ["pre-state satisfies INV (DESIGN 3.2); INV base case is the loader's initial state"],
+        "explanation": "C19 (at the level of the Report objects handed to the reporter): T-upd: per vehicle update at most one move and one charge event, move distance == odometer change, "
+                       "charge energy == energy gained, price == payment received by the right station, no state change without its event; pickup/drop-off events <=> request status changes (C03 oracle). "
+                       "H19-wait: real report_pickup_request: 0 <= wait <= cancel timeout + one step for any admission/pickup schedule; H19-timediff: real time_diff == (end-start) mod 86400 s; "
+                       "H19-load: real construct_station_load_events: one load event per station, energy == sum of its charge events; H19-stats: real StatsHandler.handle counters == event counts.",
+        "entry_points": ["vehicle_event_ops.vehicle_move_event/vehicle_charge_event/report_pickup_request/report_dropoff_request/construct_station_load_events", "StatsHandler.handle",
+                         "time_helpers.time_diff", "step_simulation_ops.step_vehicle"],
+        "bounds": C.T_BOUNDS[1:] + ["wait: dt 1..3600, timeout < 82799 s, pickup up to 1000 steps after admission", "load: <= 3 charge events over 2 stations", "stats: 2 flushes, 0..3 add and cancel events each"],
+        "outside": ["records parsed back from the written log; the real file-writing handlers (I/O, json encoder)", "TimeStepStatsHandler, Kepler handler"],
+        "stubs": C.STUBS_COMMON + C.STUBS_UPD + ["str() of a symbolic value inside construct_station_load_events returns a boxed constant text (formatting is not a subject)"],
+        "assumptions": [],
     }
